@@ -603,10 +603,10 @@ Proof.
   - auto.
 Qed.
 
-Lemma exp_online_columns guard steps dt refrac comp inps draws0 draws outs raised :
-  exp_online_gen RN guard steps dt refrac comp inps draws0 draws = (outs, raised) ->
+Lemma exp_online_columns steps dt refrac comp (inps draws0 : list (T RN)) (draws : list (list (T RN))) :
   length draws0 = length inps ->
-  (length outs <= steps)%nat /\ (raised = false -> length outs = steps) /\
+  let outs := exp_online RN steps dt refrac comp inps draws0 draws in
+  length outs = steps /\
   Forall (fun row => length row = length inps) outs /\
   (Forall nonneg draws0 -> Forall (Forall nonneg) draws ->
    forall j, (j < length inps)%nat -> exists e0, nonneg e0 /\
@@ -615,14 +615,15 @@ Lemma exp_online_columns guard steps dt refrac comp inps draws0 draws outs raise
        (interval RN (refrac_steps RN refrac dt) (scale_of RN (nth j inps 0) dt (refrac_steps RN refrac dt) comp) e0)
        (column false j outs)).
 Proof.
-  unfold exp_online_gen. set (r := refrac_steps RN refrac dt).
+  unfold exp_online. set (r := refrac_steps RN refrac dt).
   set (scales := map (fun inp => scale_of RN inp dt r comp) inps).
-  set (ivs0 := map _ (combine scales draws0)). intros H Hl0.
+  set (ivs0 := map _ (combine scales draws0)). intros Hl0.
   assert (Hls : length scales = length inps) by (unfold scales; apply map_length).
   assert (Hli : length scales = length ivs0).
   { unfold ivs0. rewrite map_length, combine_length. lia. }
-  destruct (online_loop_shape _ _ _ _ _ _ _ _ _ _ _ Hli H) as [S1 [S2 S3]].
-  rewrite Hls in S3. repeat split; auto.
+  destruct (online_loop_shape (ext_dec RN) (exp_fire RN) (interval RN r) (zero RN) scales ivs0 draws steps Hli)
+    as [S1 S2].
+  rewrite Hls in S2. cbv zeta. repeat split; auto.
   intros Hd0 Hd j Hj.
   assert (Hs : nth_error scales j = Some (scale_of RN (nth j inps 0) dt r comp)).
   { unfold scales. rewrite nth_error_map, (nth_error_nth' inps 0) by auto. auto. }
@@ -631,90 +632,43 @@ Proof.
   { unfold ivs0. rewrite nth_error_map, (combine_nth_error _ _ _ _ _ Hs He). auto. }
   exists (nth j draws0 0). split.
   - rewrite Forall_forall in Hd0. apply Hd0. apply nth_In. lia.
-  - eapply (online_loop_column (ext_dec RN) (exp_fire RN) (interval RN r) (zero RN) nonneg); eauto.
+  - apply (online_loop_column (ext_dec RN) (exp_fire RN) (interval RN r) (zero RN) nonneg scales); auto.
     unfold nonneg; simpl; lra.
 Qed.
 
-(* --- C19 online: yields exactly `steps` slices of the input's size (whenever it does not raise) *)
-Theorem exp_online_yields_steps guard steps dt refrac comp inps draws0 draws outs :
-  exp_online_gen RN guard steps dt refrac comp inps draws0 draws = (outs, false) ->
+(* --- C19 online: yields exactly `steps` slices of the input's size *)
+Theorem exp_online_yields_steps steps dt refrac comp (inps draws0 : list (T RN)) (draws : list (list (T RN))) :
   length draws0 = length inps ->
-  length outs = steps /\ Forall (fun row => length row = length inps) outs.
-Proof. intros H Hl. destruct (exp_online_columns _ _ _ _ _ _ _ _ _ _ H Hl) as [_ [H2 [H3 _]]]. auto. Qed.
-
-Theorem exp_online_elemwise_total steps dt refrac comp inps draws0 draws :
-  snd (exp_online_elemwise RN steps dt refrac comp inps draws0 draws) = false.
-Proof. apply online_loop_total. Qed.
-
-(* the function as coded and its element-wise reading agree on everything the coded one yields *)
-Theorem exp_online_coded_agrees shape steps dt refrac comp inps draws0 draws outs raised :
-  exp_online_coded RN shape steps dt refrac comp inps draws0 draws = (outs, raised) ->
-  exists rest, fst (exp_online_elemwise RN steps dt refrac comp inps draws0 draws) = outs ++ rest /\
-               (raised = false -> rest = []).
-Proof. apply online_loop_guard_prefix. Qed.
-
-(* the defect (DESIGN section 8 row 18): with more than one element the coded online encoder completes
-   only if at every step EVERY element fires; otherwise it raises and yields fewer than `steps` slices *)
-Lemma online_loop_guard_rows {St E P} dec fire renew edef guard (ps : list P) (ivs : list St) (draws : list (list E))
-      steps outs raised :
-  online_loop dec fire renew edef guard ps ivs draws steps = (outs, raised) ->
-  Forall (fun row => guard (count_true row) = true) outs.
-Proof.
-  revert ivs draws outs raised; induction steps as [|m IH]; intros ivs draws outs raised H; simpl in H.
-  - inversion H; subst; constructor.
-  - destruct (guard _) eqn:G; [|inversion H; subst; constructor].
-    destruct (online_loop _ _ _ _ _ _ _ _ m) as [rest r] eqn:Eq. inversion H; subst.
-    constructor; auto. eapply IH; eauto.
-Qed.
-
-Theorem exp_online_coded_completes_only_if_all_fire shape steps dt refrac comp inps draws0 draws outs raised :
-  exp_online_coded RN shape steps dt refrac comp inps draws0 draws = (outs, raised) ->
-  length inps <> 1%nat ->
-  Forall (fun row => count_true row = length inps) outs.
-Proof.
-  intros H Hn. apply online_loop_guard_rows in H. eapply Forall_impl; [|exact H]. simpl.
-  intros row G. unfold assign_ok in G. apply orb_prop in G as [G|G].
-  - apply Nat.eqb_eq in G. contradiction.
-  - apply andb_prop in G as [_ G]. apply Nat.eqb_eq in G. auto.
-Qed.
-
-Theorem exp_online_shape_refuted :
-  exists shape steps dt refrac comp inps draws0 draws,
-    0 < dt /\ Forall (fun x => 0 <= x) inps /\ Forall nonneg draws0 /\ length draws0 = length inps /\
-    snd (exp_online_coded RN shape steps dt refrac comp inps draws0 draws) = true /\
-    (length (fst (exp_online_coded RN shape steps dt refrac comp inps draws0 draws)) < steps)%nat.
-Proof.
-  exists [2%nat], 3%nat, 1, None, false, [0; 0], [1; 1], [].
-  assert (E : exp_online_coded RN [2%nat] 3 1 None false [0; 0] [1; 1] [] = ([], true)).
-  { unfold exp_online_coded, exp_online_gen. cbn [map]. rewrite !scale_of_zero. reflexivity. }
-  rewrite E. unfold nonneg. repeat split; simpl; auto; try lra; try lia; repeat constructor; lra.
-Qed.
+  length (exp_online RN steps dt refrac comp inps draws0 draws) = steps /\
+  Forall (fun row => length row = length inps) (exp_online RN steps dt refrac comp inps draws0 draws).
+Proof. intros Hl. destruct (exp_online_columns steps dt refrac comp inps draws0 draws Hl) as [H2 [H3 _]]. auto. Qed.
 
 (* --- C19 online: silence at zero intensity *)
-Theorem exp_online_zero_silent guard steps dt refrac comp inps draws0 draws outs raised j :
-  exp_online_gen RN guard steps dt refrac comp inps draws0 draws = (outs, raised) ->
+Theorem exp_online_zero_silent steps dt refrac comp (inps draws0 : list (T RN)) (draws : list (list (T RN))) j :
   length draws0 = length inps -> Forall nonneg draws0 -> Forall (Forall nonneg) draws ->
-  nth j inps 0 = 0 -> forall t, nth j (nth t outs []) false = false.
+  nth j inps 0 = 0 ->
+  forall t, nth j (nth t (exp_online RN steps dt refrac comp inps draws0 draws) []) false = false.
 Proof.
-  intros H Hl Hd0 Hd Hz t. destruct (exp_online_columns _ _ _ _ _ _ _ _ _ _ H Hl) as [_ [_ [Hrows Hcol]]].
+  intros Hl Hd0 Hd Hz t. destruct (exp_online_columns steps dt refrac comp inps draws0 draws Hl) as [_ [Hrows Hcol]].
   destruct (Nat.lt_ge_cases j (length inps)) as [Hj|Hj]; [|eapply rows_out_of_range; eauto].
   destruct (Hcol Hd0 Hd j Hj) as [e0 [_ Htr]]. rewrite Hz, scale_of_zero in Htr. simpl in Htr.
   rewrite <- column_nth. eapply exp_trace_none; eauto.
 Qed.
 
 (* --- C19 online: minimum gap floor(refrac/dt) between two spikes of an element *)
-Theorem exp_online_min_gap guard steps dt refrac comp inps draws0 draws outs raised j t1 t2 :
-  exp_online_gen RN guard steps dt refrac comp inps draws0 draws = (outs, raised) ->
+Theorem exp_online_min_gap steps dt refrac comp (inps draws0 : list (T RN)) (draws : list (list (T RN))) j t1 t2 :
   length draws0 = length inps -> Forall nonneg draws0 -> Forall (Forall nonneg) draws ->
   0 < dt -> 0 <= refrac_ms refrac dt -> Forall (fun x => 0 <= x) inps ->
   (comp = true -> Forall (fun x => x * refrac_ms refrac dt <= 1000) inps) ->
-  (t1 < t2)%nat -> nth j (nth t1 outs []) false = true -> nth j (nth t2 outs []) false = true ->
+  (t1 < t2)%nat ->
+  nth j (nth t1 (exp_online RN steps dt refrac comp inps draws0 draws) []) false = true ->
+  nth j (nth t2 (exp_online RN steps dt refrac comp inps draws0 draws) []) false = true ->
   (Zfloor (refrac_ms refrac dt / dt) <= Z.of_nat t2 - Z.of_nat t1)%Z.
 Proof.
-  intros H Hl Hd0 Hd Hdt Hr Hx Hdom Hlt H1 H2.
-  destruct (exp_online_columns _ _ _ _ _ _ _ _ _ _ H Hl) as [_ [_ [Hrows Hcol]]].
+  intros Hl Hd0 Hd Hdt Hr Hx Hdom Hlt H1 H2.
+  destruct (exp_online_columns steps dt refrac comp inps draws0 draws Hl) as [_ [Hrows Hcol]].
   destruct (Nat.lt_ge_cases j (length inps)) as [Hj|Hj];
-    [|rewrite (rows_out_of_range outs (length inps) j t1 Hrows Hj) in H1; discriminate].
+    [|rewrite (rows_out_of_range _ (length inps) j t1 Hrows Hj) in H1; discriminate].
   destruct (Hcol Hd0 Hd j Hj) as [e0 [_ Htr]].
   rewrite <- column_nth in H1, H2. rewrite refrac_steps_eq in Htr.
   apply gap_to_floor. eapply exp_trace_gap; [|exact Htr|auto|auto|auto].
@@ -723,59 +677,59 @@ Proof.
   - intros Hc. specialize (Hdom Hc). rewrite Forall_forall in Hdom. apply Hdom. apply nth_In; auto.
 Qed.
 
-Theorem exp_online_once_per_refrac guard steps dt refrac comp inps draws0 draws outs raised j a :
-  exp_online_gen RN guard steps dt refrac comp inps draws0 draws = (outs, raised) ->
+Theorem exp_online_once_per_refrac steps dt refrac comp (inps draws0 : list (T RN)) (draws : list (list (T RN))) j a :
   length draws0 = length inps -> Forall nonneg draws0 -> Forall (Forall nonneg) draws ->
   0 < dt -> 0 <= refrac_ms refrac dt -> Forall (fun x => 0 <= x) inps ->
   (comp = true -> Forall (fun x => x * refrac_ms refrac dt <= 1000) inps) ->
-  (count_true (firstn (Z.to_nat (Zfloor (refrac_ms refrac dt / dt))) (skipn a (column false j outs))) <= 1)%nat.
+  (count_true (firstn (Z.to_nat (Zfloor (refrac_ms refrac dt / dt)))
+                 (skipn a (column false j (exp_online RN steps dt refrac comp inps draws0 draws)))) <= 1)%nat.
 Proof.
-  intros H Hl Hd0 Hd Hdt Hr Hx Hdom. apply gap_window. intros t1 t2 Hlt H1 H2. rewrite column_nth in H1, H2.
-  pose proof (exp_online_min_gap _ _ _ _ _ _ _ _ _ _ _ _ _ H Hl Hd0 Hd Hdt Hr Hx Hdom Hlt H1 H2). lia.
+  intros Hl Hd0 Hd Hdt Hr Hx Hdom. apply gap_window. intros t1 t2 Hlt H1 H2. rewrite column_nth in H1, H2.
+  pose proof (exp_online_min_gap _ _ _ _ _ _ _ _ _ _ Hl Hd0 Hd Hdt Hr Hx Hdom Hlt H1 H2). lia.
 Qed.
 
 (* ------------------------------------------------------------------ HomogeneousPoissonEncoder.forward(online=True) *)
-Lemma hpe_online_inv coded shape c xs draws0 draws outs raised :
-  hpe_online RN coded shape c xs draws0 draws = Ok (outs, raised) ->
+Lemma hpe_online_inv c xs draws0 draws outs :
+  hpe_online RN c xs draws0 draws = Ok outs ->
   (0 < c_dt c /\ 0 <= c_freq c /\ (0 < c_steps c)%Z /\ 0 <= enc_refrac RN c) /\
-  exp_online_gen RN (if coded then assign_ok shape (length xs) else fun _ => true)
-    (Z.to_nat (c_steps c)) (c_dt c) (Some (enc_refrac RN c)) (c_comp c) (scaled_inputs RN (c_freq c) xs)
-    draws0 draws = (outs, raised).
+  outs = exp_online RN (Z.to_nat (c_steps c)) (c_dt c) (Some (enc_refrac RN c)) (c_comp c)
+           (scaled_inputs RN (c_freq c) xs) draws0 draws.
 Proof.
   unfold hpe_online. destruct (valid_step RN c && valid_refrac RN c) eqn:V; [|discriminate].
   intros H; inversion H. split; auto. apply valid_facts; auto.
 Qed.
 
-Theorem hpe_online_yields_steps coded shape c xs draws0 draws outs :
-  hpe_online RN coded shape c xs draws0 draws = Ok (outs, false) -> length draws0 = length xs ->
+Theorem hpe_online_yields_steps c xs draws0 draws outs :
+  hpe_online RN c xs draws0 draws = Ok outs -> length draws0 = length xs ->
   length outs = Z.to_nat (c_steps c) /\ (0 < c_steps c)%Z /\ Forall (fun row => length row = length xs) outs.
 Proof.
-  intros H Hl. apply hpe_online_inv in H as [[_ [_ [Hs _]]] H].
-  apply exp_online_yields_steps in H; [|rewrite scaled_inputs_length; auto].
-  rewrite scaled_inputs_length in H. tauto.
+  intros H Hl. apply hpe_online_inv in H as [[_ [_ [Hs _]]] ->].
+  destruct (exp_online_yields_steps (Z.to_nat (c_steps c)) (c_dt c) (Some (enc_refrac RN c)) (c_comp c)
+              (scaled_inputs RN (c_freq c) xs) draws0 draws) as [H1 H2]; [rewrite scaled_inputs_length; auto|].
+  rewrite scaled_inputs_length in H2. tauto.
 Qed.
 
-Theorem hpe_online_zero_silent coded shape c xs draws0 draws outs raised j :
-  hpe_online RN coded shape c xs draws0 draws = Ok (outs, raised) -> length draws0 = length xs ->
+Theorem hpe_online_zero_silent c xs draws0 draws outs j :
+  hpe_online RN c xs draws0 draws = Ok outs -> length draws0 = length xs ->
   Forall nonneg draws0 -> Forall (Forall nonneg) draws -> nth j xs 0 = 0 ->
   forall t, nth j (nth t outs []) false = false.
 Proof.
-  intros H Hl Hd0 Hd Hz t. apply hpe_online_inv in H as [_ H].
-  destruct (Nat.lt_ge_cases j (length xs)) as [Hj|Hj].
-  - eapply exp_online_zero_silent; eauto; [rewrite scaled_inputs_length; auto|].
-    rewrite scaled_inputs_nth by auto. rewrite Hz. apply Rmult_0_r.
-  - destruct (exp_online_columns _ _ _ _ _ _ _ _ _ _ H ltac:(rewrite scaled_inputs_length; auto)) as [_ [_ [Hrows _]]].
-    rewrite scaled_inputs_length in Hrows. eapply rows_out_of_range; eauto.
+  intros H Hl Hd0 Hd Hz t. pose proof (hpe_online_yields_steps _ _ _ _ _ H Hl) as [_ [_ Hrows]].
+  apply hpe_online_inv in H as [_ ->].
+  destruct (Nat.lt_ge_cases j (length xs)) as [Hj|Hj]; [|eapply rows_out_of_range; eauto].
+  apply exp_online_zero_silent; auto; [rewrite scaled_inputs_length; auto|].
+  rewrite scaled_inputs_nth by auto. rewrite Hz. apply Rmult_0_r.
 Qed.
 
-Theorem hpe_online_min_gap coded shape c xs draws0 draws outs raised j t1 t2 :
-  hpe_online RN coded shape c xs draws0 draws = Ok (outs, raised) -> length draws0 = length xs ->
+Theorem hpe_online_min_gap c xs draws0 draws outs j t1 t2 :
+  hpe_online RN c xs draws0 draws = Ok outs -> length draws0 = length xs ->
   Forall nonneg draws0 -> Forall (Forall nonneg) draws -> hpe_domain c xs ->
   (t1 < t2)%nat -> nth j (nth t1 outs []) false = true -> nth j (nth t2 outs []) false = true ->
   (Zfloor (enc_refrac RN c / c_dt c) <= Z.of_nat t2 - Z.of_nat t1)%Z.
 Proof.
-  intros H Hl Hd0 Hd [Hx Hdom] Hlt H1 H2. apply hpe_online_inv in H as [[Hdt [Hf [Hs Hr]]] H].
-  eapply (exp_online_min_gap _ _ _ (Some (enc_refrac RN c))); eauto.
+  intros H Hl Hd0 Hd [Hx Hdom] Hlt H1 H2. apply hpe_online_inv in H as [[Hdt [Hf [Hs Hr]]] ->].
+  apply (exp_online_min_gap (Z.to_nat (c_steps c)) (c_dt c) (Some (enc_refrac RN c)) (c_comp c)
+           (scaled_inputs RN (c_freq c) xs) draws0 draws j t1 t2); auto.
   - rewrite scaled_inputs_length; auto.
   - unfold scaled_inputs. apply Forall_forall. intros y Hy. apply in_map_iff in Hy as [x [<- Hxin]].
     rewrite Forall_forall in Hx. apply Rmult_le_pos; auto.
@@ -846,37 +800,35 @@ Proof.
   - unfold column. rewrite map_length. auto.
 Qed.
 
-Theorem pie_online_shape c xs draws0 draws outs raised :
-  pie_online RN c xs draws0 draws = Ok (outs, raised) -> length draws0 = length xs ->
-  raised = false /\ length outs = Z.to_nat (c_steps c) /\ (0 < c_steps c)%Z /\
+Theorem pie_online_shape c xs draws0 draws outs :
+  pie_online RN c xs draws0 draws = Ok outs -> length draws0 = length xs ->
+  length outs = Z.to_nat (c_steps c) /\ (0 < c_steps c)%Z /\
   Forall (fun row => length row = length xs) outs.
 Proof.
   unfold pie_online. destruct (valid_step RN c) eqn:V; [|discriminate].
   destruct (valid_step_facts c V) as [_ [_ Hs]]. intros H Hl. inversion H as [E]. clear H.
-  unfold pi_online in E.
-  pose proof (online_loop_total (fun i => (i - 1)%Z) pi_fire (fun (_ : bool) (e : Z) => e) 0%Z
-                (map (pi_mask RN) (scaled_inputs RN (c_freq c) xs)) draws0 draws (Z.to_nat (c_steps c))) as Ht.
-  rewrite E in Ht. simpl in Ht. subst raised.
-  apply online_loop_shape in E; [|rewrite map_length, scaled_inputs_length; auto].
-  rewrite map_length, scaled_inputs_length in E. destruct E as [_ [E2 E3]]. auto.
+  unfold pi_online.
+  destruct (online_loop_shape (fun i => (i - 1)%Z) pi_fire (fun (_ : bool) (e : Z) => e) 0%Z
+              (map (pi_mask RN) (scaled_inputs RN (c_freq c) xs)) draws0 draws (Z.to_nat (c_steps c)))
+    as [E2 E3]; [rewrite map_length, scaled_inputs_length; auto|].
+  rewrite map_length, scaled_inputs_length in E3. auto.
 Qed.
 
-Theorem pie_online_zero_silent c xs draws0 draws outs raised j :
-  pie_online RN c xs draws0 draws = Ok (outs, raised) -> length draws0 = length xs ->
+Theorem pie_online_zero_silent c xs draws0 draws outs j :
+  pie_online RN c xs draws0 draws = Ok outs -> length draws0 = length xs ->
   nth j xs 0 = 0 -> forall t, nth j (nth t outs []) false = false.
 Proof.
-  intros H Hl Hz t. destruct (pie_online_shape _ _ _ _ _ _ H Hl) as [_ [_ [_ Hrows]]].
+  intros H Hl Hz t. destruct (pie_online_shape _ _ _ _ _ H Hl) as [_ [_ Hrows]].
   destruct (Nat.lt_ge_cases j (length xs)) as [Hj|Hj]; [|eapply rows_out_of_range; eauto].
   unfold pie_online in H. destruct (valid_step RN c); [|discriminate]. inversion H as [E]. clear H.
-  unfold pi_online in E. rewrite <- column_nth.
+  unfold pi_online. rewrite <- column_nth.
   assert (Hok : Forall (Forall (fun _ : Z => True)) draws).
   { clear. induction draws as [|r rs IH]; constructor; auto. clear. induction r; constructor; auto. }
   apply (pi_online_never_when_masked (fun _ => True) (nth j draws0 0%Z)).
   apply (online_loop_column (fun i => (i - 1)%Z) pi_fire (fun (_ : bool) (e : Z) => e) 0%Z (fun _ => True)
-           (fun _ => true) (map (pi_mask RN) (scaled_inputs RN (c_freq c) xs)) I
-           (Z.to_nat (c_steps c)) draws0 draws outs raised Hok).
+           (map (pi_mask RN) (scaled_inputs RN (c_freq c) xs)) I
+           (Z.to_nat (c_steps c)) draws0 draws Hok).
   - rewrite map_length, scaled_inputs_length; auto.
-  - exact E.
   - rewrite nth_error_map, (nth_error_nth' _ 0) by (rewrite scaled_inputs_length; auto).
     simpl. rewrite scaled_inputs_nth by auto. rewrite Hz. f_equal. apply pi_mask_zero.
   - apply nth_error_nth'. lia.
@@ -1016,10 +968,10 @@ Qed.
 (* --- C19: reproducible - every encoder's result is a function of its configuration, inputs and draws
        (true by construction of the model: the implementation-side counterpart, equal generator state =>
        equal draws => equal result, is checked by the oracle on the real encoders) *)
-Theorem reproducible c xs shape coded draws draws' draws0 draws0' :
+Theorem reproducible c xs draws draws' draws0 draws0' :
   draws = draws' -> draws0 = draws0' ->
   hpe_offline RN c xs draws = hpe_offline RN c xs draws' /\
-  hpe_online RN coded shape c xs draws0 draws = hpe_online RN coded shape c xs draws0' draws'.
+  hpe_online RN c xs draws0 draws = hpe_online RN c xs draws0' draws'.
 Proof. intros -> ->. auto. Qed.
 
 (* ------------------------------------------------------------------ non-vacuity: a concrete accepted call inside the
